@@ -30,6 +30,23 @@ Rel06(A) == {<<>>} \cup {<<x>> : x \in UpTo(A, 2)} \cup {<<x, y>> : x \in T1(A),
 U06 == WithAbs(Rel06(A10))                                  \* 422 names
 V06 == WithAbs(Rel06(VAlpha))
 
+(* C06 "mimic" universe: octets 1, 2 (3) inside labels, placed so that <length><label> of ANOTHER
+   universe name occurs inside a label - a\001a contains the wire form of the label a, \002aa that of
+   aa, \001a\001A that of the two labels a.A - so that any shortcut through the wire / text form that
+   loses the label boundaries (suffix match on the wire form, joined strings, ...) shows.  Labels:
+   all of length 1 and 2 over {1, 2, 'A', 'a'}; x\001y and \002xy; \001x\001y and a\002xy (x, y
+   letters); plus the 3-octet-length cases \003aaa / aaa.  Names: one such label, or one such label
+   followed by a, A or \001a; relative and absolute. *)
+MLetters == {65, 97}
+M4 == {1, 2, 65, 97}
+MimicLabels == T1(M4) \cup T2(M4)
+               \cup {<<x, 1, y>> : x \in MLetters, y \in MLetters} \cup {<<2, x, y>> : x \in MLetters, y \in MLetters}
+               \cup {<<1, x, 1, y>> : x \in MLetters, y \in MLetters} \cup {<<97, 2, x, y>> : x \in MLetters, y \in MLetters}
+               \cup {<<3, 97, 97, 97>>, <<97, 97, 97>>, <<97, 3, 97, 65>>}
+MimicRel == {<<>>} \cup {<<x>> : x \in MimicLabels}
+            \cup {<<x, y>> : x \in MimicLabels, y \in {<<97>>, <<1, 97>>}}
+UMimic == WithAbs(MimicRel)
+
 (* successor / predecessor: labels c^k, names filled up to 253..255 octets *)
 Origins06 == { << <<111>>, <<>> >>, << <<111>>, <<90, 122>>, <<>> >> }       \* o.   o.Zz.
 BigLabels == {Rep(c, k) : c \in A10, k \in BigK}
@@ -96,7 +113,7 @@ PlainCases == {<<[base |-> 0, tail |-> c[1]], c[2]>> :
                   c \in {d \in {<<w, s>> : w \in Wires, s \in 0..5} : d[2] <= Len(d[1])}}
 
 (* C01 compression: names written one after the other into one buffer with one table *)
-WLabels == {<<97>>, <<65>>, <<98>>}                                         \* a A b
+WLabels == {<<97>>, <<65>>, <<98>>, <<1, 97>>}                              \* a A b \001a (contains the wire form of a)
 WRel == {<<>>} \cup {<<x>> : x \in WLabels} \cup {<<x, y>> : x \in WLabels, y \in WLabels}
         \cup {<<x, y, z>> : x \in WLabels, y \in WLabels, z \in WLabels}
 WNames == WithAbs(WRel)
